@@ -32,7 +32,7 @@ def gen(rng, tier, shard, nshards):
     n = 110 if tier == 'quick' else 900
     for i in range(n):
         pdim = rng.choice([1, 1, 2, 2, 3])
-        dim = 3 if pdim == 3 else rng.choice([2, 3, 3])
+        dim = 3 if pdim == 3 else rng.choice([2, 3, 3, 3, 4])     # 4: one more coordinate (say, time): rotation about a coordinate axis leaves it alone
         nel = rng.choice([0, 0, 1, 2, 3])  # 0 = plain shape, else container with nel elements
         uncl = rng.random() < 0.25      # unclamped shapes: the start point is not the first control point
         shapes = [G.rand_shape(rng, pdim, dim=dim, clamped_only=not uncl, maxextra=3, maxdeg=3,
